@@ -106,15 +106,52 @@ def forward_bound_accumulator(ctx: Ctx, rid: str):
     g = cfg_of(sched)
     ff = facts_of(sched)
     seen_dep_update = False
+    dep_defs = []
     for asg in [n for n in own_nodes(sched) if isinstance(n, ast.Assign) and norm(n.targets[0]) == "earliest_start"
                 and _branch(sched, n, "forward") == "T"]:
         if not any(isinstance(x, ast.Name) and x.id != "self" for x in ast.walk(asg.value)):
             continue                                  # initialisation from project data
+        # `earliest_start = r` where r is nothing but a copy of earliest_start (the result variable of a helper that N-inline
+        # folded back): not an update
+        if isinstance(asg.value, ast.Name):
+            _defs = local_resolver(sched.node)(asg.value)
+            if _defs and all(isinstance(v_, ast.Name) and v_.id == "earliest_start" for v_ in _defs):
+                continue
         new = norm(asg.value)
         node = g.node_of(asg)
         fact = None
         tabs = []
-        for cl in (ff.at(node) if node is not None else ()):
+        # the value may come through a result variable (`r = earliest_start` on some paths, `r = bound` under `bound >
+        # earliest_start` on others; `earliest_start = r`): each definition of r is then examined where it is made
+        if isinstance(asg.value, ast.Name):
+            rdefs = [d for d in own_nodes(sched) if isinstance(d, ast.Assign) and len(d.targets) == 1 and isinstance(d.targets[0], ast.Name)
+                     and d.targets[0].id == asg.value.id and not (isinstance(d.value, ast.Constant) and d.value.value is None)]
+            if rdefs and any(isinstance(d.value, ast.Name) and d.value.id == "earliest_start" for d in rdefs):
+                allok = True
+                for d in rdefs:
+                    if isinstance(d.value, ast.Name) and d.value.id == "earliest_start":
+                        continue
+                    dn = g.node_of(d)
+                    okd = False
+                    for cl in (ff.at(dn) if dn is not None else ()):
+                        if len(cl) != 1:
+                            continue
+                        (t, p), = tuple(cl)
+                        e = lit_compare(t)
+                        if isinstance(e, ast.Compare):
+                            names_v = {norm(d.value)}
+                            if isinstance(d.value, ast.Name):      # `bound = dep_time` under `dep_time > earliest_start`
+                                names_v |= {norm(v_) for v_ in local_resolver(sched.node)(d.value) if isinstance(v_, ast.Name)}
+                            tab = order_table(e if p else ast.UnaryOp(op=ast.Not(), operand=e), lambda x: norm(x) in names_v,
+                                              lambda x: norm(x) == "earliest_start")
+                            if tab.get("<") is False and tab.get(">") is True:
+                                okd = True
+                    allok = allok and okd
+                    if okd and "dep_time" in names_v:
+                        dep_defs.append(d)
+                if allok:
+                    fact = f"every definition of {asg.value.id} is earliest_start itself or a value tested to be later"
+        for cl in (ff.at(node) if node is not None and fact is None else ()):
             if len(cl) != 1:
                 continue
             (t, p), = tuple(cl)
@@ -133,9 +170,10 @@ def forward_bound_accumulator(ctx: Ctx, rid: str):
                f"(facts there: {[t for t, _ in tabs][:3]}): a predecessor (with its gap) that ends earlier than the bound found so far can "
                "lower it, or the test was made before the gap was added",
                key=key_of(rid, sched, None, "fwd acc " + new))
-        if new == "dep_time":
+        if new == "dep_time" or dep_defs:
             seen_dep_update = True
-            d = full(fd.deps_of(asg.value, control=True))
+            d = full(fd.deps_of(asg.value if new == "dep_time" else dep_defs[0].value, control=True))
+            dep_defs = []
             for a, what in (("pattr:end", "predecessor end"), ("pattr:start", "predecessor start (on-start edges)"),
                             ("pattr:gapduration", "gapduration"), ("pattr:gaplength", "gaplength"), ("pattr:onstart", "edge kind"),
                             ("call:getAllDependencies", "own + inherited edges")):
